@@ -338,7 +338,7 @@ def check(ctx):
                 ctx.fail(lc, lc.node, f"sibling entry points disagree on the {which} checklist: __call__ {a[which]} vs add {b[which]}", construct=f"sibling {which} checklist mismatch")
     # pair format under specified noise
     pair_ok = False
-    from .common import deref_canon as _dc
+    from .common import deref_canon as _dc, deref_expr as _dx10e
 
     for node in ast.walk(lc.node):
         if isinstance(node, ast.If):
@@ -373,7 +373,73 @@ def check(ctx):
                                 if an is not None and hn is not None and hn.id in cfg_l.reachable(an.id, skip_exc=True) and any(
                                         isinstance(r_, ast.Raise) and r_.exc is not None and canon(r_.exc).startswith("ValueError") for b_ in taken for r_ in ast.walk(b_)):
                                     pair_ok = True
-    ctx.check(pair_ok, lc, lc.node, "with specified noise, a result that is not a 2-tuple raises ValueError", "with specified noise a target result that is not a (value, SD) pair is no longer rejected with ValueError", construct="pair-format check")
+    # the test itself, as a truth table over A = 'is a tuple' and B = 'has length 2' (other atoms, i.e. the noise flag, true):
+    # the rejecting branch must be taken exactly when not (A and B)
+    def _atoms_eval(e, A, B):
+        if isinstance(e, ast.UnaryOp) and isinstance(e.op, ast.Not):
+            return not _atoms_eval(e.operand, A, B)
+        if isinstance(e, ast.BoolOp):
+            vals = [_atoms_eval(v, A, B) for v in e.values]
+            return all(vals) if isinstance(e.op, ast.And) else any(vals)
+        if isinstance(e, ast.Call) and isinstance(e.func, ast.Name) and e.func.id == "bool" and len(e.args) == 1:
+            return _atoms_eval(e.args[0], A, B)
+        c_ = canon(e)
+        if isinstance(e, ast.Compare) and len(e.ops) == 1:
+            l_, r_ = canon(e.left), canon(e.comparators[0])
+            if "type(" in l_ + r_ and "tuple" in l_ + r_:
+                return A if isinstance(e.ops[0], (ast.Is, ast.Eq)) else (not A)
+            if "len(" in l_ + r_ and ("2" in (l_, r_)):
+                if isinstance(e.ops[0], ast.Eq):
+                    return B
+                if isinstance(e.ops[0], ast.NotEq):
+                    return not B
+                raise ValueError("len compared otherwise")
+        if isinstance(e, ast.Call) and call_name(e) == "isinstance" and len(e.args) == 2 and canon(e.args[1]) == "tuple":
+            return A
+        if "tuple" in c_ or "len(" in c_:
+            raise ValueError("unmodelled atom")
+        return True  # the noise flag and the like
+
+    def _rejects(stmts):
+        for b_ in stmts:
+            for r_ in ast.walk(b_):
+                if isinstance(r_, ast.Raise) and r_.exc is not None and canon(r_.exc).startswith("ValueError"):
+                    return True
+                if isinstance(r_, ast.Assign) and len(r_.targets) == 1 and isinstance(r_.targets[0], ast.Name) and isinstance(r_.value, ast.Constant) and isinstance(r_.value.value, bool):
+                    return True  # flag-mediated (its raise was located above)
+        return False
+
+    table_failed = False
+    if pair_ok:
+        for node in ast.walk(lc.node):
+            if not isinstance(node, ast.If):
+                continue
+            t_ = node.test
+            c_ = canon(t_)
+            if not ("tuple" in c_ and "len(" in c_):
+                t_ = _dx10e(prog, lc, node.test)
+                c_ = canon(t_)
+            if not ("tuple" in c_ and "len(" in c_ and "2" in c_):
+                continue
+            try:
+                wrong = []
+                for A in (True, False):
+                    for B in (True, False):
+                        taken = node.body if _atoms_eval(t_, A, B) else node.orelse
+                        if _rejects(taken) != (not (A and B)):
+                            wrong.append((A, B, _rejects(taken)))
+                if wrong:
+                    A, B, rj = wrong[0]
+                    pair_ok = False
+                    table_failed = True
+                    ctx.fail(lc, node, f"the (value, SD) format test takes the {'rejecting' if rj else 'accepting'} branch for a result that is {'a' if A else 'not a'} tuple of length {'2' if B else '!= 2'}: "
+                             "with specified noise a malformed result (e.g. a 2-element list or array, or a tuple of another length) must raise ValueError and a proper pair must not",
+                             construct=f"pair test table tuple={A} len2={B} -> {'reject' if rj else 'accept'}")
+                    break
+            except ValueError:
+                pass
+    if not (not pair_ok and table_failed):
+        ctx.check(pair_ok, lc, lc.node, "with specified noise, a result that is not a 2-tuple raises ValueError", "with specified noise a target result that is not a (value, SD) pair is no longer rejected with ValueError", construct="pair-format check")
 
     # ------------------------------------------------------------------ R2
     ctx.rule("R2", "validation raises dominate the record call and the counter increment", floor=3)
